@@ -405,7 +405,25 @@ def main(tier, n=None):
     rep.merge_pool(res, groups)
     rep.evaluations = rep.reach.get("c06_cases", 0)
     rep.distinct = set(rep.extra.get("case_sigs", ()))
-    return rep.finish(required_reach=["c06_crashes", "c06_rows_audited", "c06_real_sigkills", "c06_complete_run_checks", "c06_commit_flag_checks"])
+    # "recorded only if that execution exited 0" under adversarial exit delivery: failing / killed
+    # experiments, children the cond process did not start, every kernel scheduling strategy (E2)
+    from .. import sched
+    from . import _sched_common as S
+    S.warm()
+    ne2 = 400 if tier == "quick" else 20000
+    if n:
+        ne2 = max(10, n // 10)
+    e2 = sched.gen_cases(common.base_seed() + 6, ne2, "faults", None, 7)
+    r6 = common.rng_for("c06e2", common.base_seed())
+    for c in e2:
+        for inv in c["history"]:
+            inv["stop_early"] = False
+            if r6.random() < 0.6:
+                inv["unrelated"] = [dict(r6.choice([{"exit": 0}, {"exit": 0}, {"exit": 3}])) for _ in range(r6.randint(1, 3))]
+    e2c = [(c, ["C06"]) for c in e2]
+    res2 = common.parallel_map(sched.eval_case, e2c, timeout=240)
+    rep.merge_pool(res2, e2c)
+    return rep.finish(required_reach=["c06_crashes", "c06_rows_audited", "c06_real_sigkills", "c06_complete_run_checks", "c06_commit_flag_checks", "c06_e2_rows_checked"])
 
 
 def replay(path):
